@@ -140,7 +140,7 @@ def spec_all(optic):
             sp['EPD'] = abs(sp['f2']) / ap.value
         else:
             n0 = float(np.ravel(obj.material_post.n(w))[0])
-            sp['EPD'] = 2 * (sp['EPL'] - obj.geometry.cs.z) * math.tan(math.asin(ap.value / n0))
+            sp['EPD'] = 2 * (sp['EPL'] - float(np.ravel(obj.geometry.cs.z)[0])) * math.tan(math.asin(ap.value / n0))
         sp['FNO'] = ap.value if ap.ap_type == 'imageFNO' else abs(sp['f2']) / sp['EPD']
         # marginal ray
         if obj.is_infinite:
@@ -257,6 +257,24 @@ def cases(ctx):
         stop = ctx.rng.choice(['first', 'interior', 'last', 'any'])
         d = lensgen.gen_lens(ctx.rng, stop=stop, allow_asphere=ctx.rng.random() < 0.2)
         out.append({'desc': d})
+        if ctx.rng.random() < 0.35:
+            # the same lens queried, edited through the public setters, and queried again: results must follow
+            # the *current* prescription (stale caches, in-place aliasing)
+            ns = len(d['surfaces'])
+            edits = []
+            for _ in range(ctx.rng.randint(1, 3)):
+                k = ctx.rng.randint(1, ns - 2)
+                u = ctx.rng.random()
+                nxt_mirror = any(d['surfaces'][q].get('material', {}).get('kind') == 'mirror' for q in (k, k + 1))
+                if u < 0.45 and k <= ns - 3 and not nxt_mirror:
+                    # (not behind the last optical surface: the image space stays air; not in front of a mirror:
+                    #  set_index does not touch the mirror's back medium, which is the same object by construction)
+                    edits.append(['si', lensgen.dyadic(ctx.rng, 1.3, 2.0, 8), k])
+                elif u < 0.75:
+                    edits.append(['sr', lensgen.dyadic(ctx.rng, 15, 300, 3) * ctx.rng.choice([1, -1]), k])
+                else:
+                    edits.append(['st', lensgen.dyadic(ctx.rng, 0.5, 30, 4), k])
+            out.append({'desc': d, 'edits': edits})
     return out
 
 
@@ -269,6 +287,17 @@ def work(ctx, cs):
         except Exception as e:  # noqa
             ctx.count('build_error:' + type(e).__name__)
             continue
+        if case.get('edits'):
+            from . import c01
+            impl_all(optic)                    # first round of queries on the unedited lens
+            bad = False
+            for e in case['edits']:
+                if c01.apply_op(optic, tuple(e)) is not None:
+                    bad = True
+            if bad:
+                ctx.count('edit raised')
+                continue
+            ctx.count('edited-then-requeried')
         vals, rays = impl_all(optic)
         try:
             lines.append('paraxall ' + ' '.join(sys_tokens(optic)))
